@@ -1,5 +1,5 @@
 /*VERIF
-{ "tu": "src/semaphore.c", "enforce": "_dispatch_group_wait_slow", "props": ["C07","C05"],
+{ "tu": "src/semaphore.c", "enforce": "_dispatch_group_wait_slow", "props": ["C07","C05","C19"],
   "nondet_volatile": true, "timeout": 180,
   "stub_note": "_dispatch_wait_on_address (futex wait): returns an arbitrary rc, remembered in a ghost",
   "assumes": ["for(;;) closed by a loop contract; no termination claim"] }
